@@ -36,9 +36,9 @@ structure CapCfg (c : Cfg) : Prop where
   dense_grow : ∀ e sz, ¬ e >>> c.capShift > sz → c.denseGrow e ≤ 3 * sz + 5
   sparse : ∀ sz, c.sparseCap sz ≤ 3 * sz + 5
   /-- growth of a table without room (plain: modulus `bigMod cap`) -/
-  plain_grow : ∀ cap sz r, 0 < cap → cap ≤ sz + slack c cap → cap + 1 + r % c.bigMod cap ≤ 3 * sz + 5
+  plain_grow : ∀ cap sz r, 0 < cap → cap ≤ sz + slack c cap → cap + 1 + c.growExtra cap + r % c.bigMod cap ≤ 3 * sz + 5
   /-- growth of a bitmap table without room -/
-  bitmap_grow : ∀ cap sz r, 0 < cap → cap ≤ sz + slack c cap → cap + 1 + r % cap ≤ 3 * sz + 5
+  bitmap_grow : ∀ cap sz r, 0 < cap → cap ≤ sz + slack c cap → cap + 1 + c.growExtra cap + r % cap ≤ 3 * sz + 5
   /-- bitmap table without room → dense -/
   bitmap_dense : ∀ cap sz mx, cap > mx >>> 6 → cap ≤ sz + slack c cap → c.denseCap mx ≤ 3 * sz + 5
   /-- narrowing a bitmap table -/
@@ -251,12 +251,13 @@ theorem capCfg64 : CapCfg cfg64 where
   plain_grow := by
     intro cap sz r hc h
     rw [slack64] at h
-    show cap + 1 + r % (2 * cap) ≤ 3 * sz + 5
+    show cap + 1 + 0 + r % (2 * cap) ≤ 3 * sz + 5
     have := Nat.mod_lt r (show 0 < 2 * cap by omega)
     omega
   bitmap_grow := by
     intro cap sz r hc h
     rw [slack64] at h
+    show cap + 1 + 0 + r % cap ≤ 3 * sz + 5
     have := Nat.mod_lt r hc
     omega
   bitmap_dense := by
@@ -296,12 +297,13 @@ theorem capCfg32 : CapCfg cfg32 where
   plain_grow := by
     intro cap sz r hc h
     rw [slack32] at h
-    show cap + 1 + r % cap ≤ 3 * sz + 5
+    show cap + 1 + cap / 8 + r % cap ≤ 3 * sz + 5
     have := Nat.mod_lt r hc
     omega
   bitmap_grow := by
     intro cap sz r hc h
     rw [slack32] at h
+    show cap + 1 + cap / 8 + r % cap ≤ 3 * sz + 5
     have := Nat.mod_lt r hc
     omega
   bitmap_dense := by
@@ -396,10 +398,10 @@ theorem plainTail_cap (cc : CapCfg c) (g : Rng D) {sz cap bits : Nat} {a : Tbl} 
         | some a' => (pure (Rp.heap (sz + 1) cap bits a', true) : SC.M D (Rp × Bool))
         | none => do
           let r ← drawM c g cap bits
-          let na ← List.foldlM (fun t v => placeRaw v t) (Array.replicate (cap + 1 + r % c.bigMod cap) 0)
+          let na ← List.foldlM (fun t v => placeRaw v t) (Array.replicate (cap + 1 + c.growExtra cap + r % c.bigMod cap) 0)
             (List.filter (fun x => decide (x ≠ 0)) a.toList)
           let na ← placeRaw (enc bits e) na
-          pure (Rp.heap (sz + 1) (cap + 1 + r % c.bigMod cap) bits na, true)) d = .ok ((r', b), d') →
+          pure (Rp.heap (sz + 1) (cap + 1 + c.growExtra cap + r % c.bigMod cap) bits na, true)) d = .ok ((r', b), d') →
       CapOK r' (Max.max M (len r')) := by
     intro hnf h
     have hfresh : ∀ i, i < a.size → get a i ≠ 0 → K a 0 i ≠ enc bits e := by
@@ -520,7 +522,7 @@ theorem insertBitmap_cap (ok : CfgOK c) (cc : CapCfg c) (abs : ∀ r, WF c r →
               rebuild c rec (denseWithMax c mx) (.heap sz cap bits a) e
             else do
               let r ← drawM c g cap bits
-              let new ← withCapBits c g (cap + 1 + (r % cap)) bits
+              let new ← withCapBits c g (cap + 1 + c.growExtra cap + (r % cap)) bits
               rebuild c rec new (.heap sz cap bits a) e) d = .ok ((r', b), d') := by
           unfold insertBitmap at h
           rw [if_neg hcab] at h
